@@ -22,4 +22,6 @@ def inner(a: PolyLike, b: PolyLike) -> ndpoly:
         return numpoly.multiply(a, b)
     # sum product over the last axes: out[i..., j...] = sum(a[i..., :]*b[j..., :])
     a = a[(Ellipsis,) + (numpy.newaxis,) * (b.ndim - 1) + (slice(None),)]
-    return numpoly.sum(numpoly.multiply(a, b), axis=-1)
+    product = numpoly.multiply(a, b)
+    # (booleans are summed as booleans, not counted)
+    return numpoly.sum(product, axis=-1, dtype=bool if product.dtype == bool else None)
